@@ -29,7 +29,7 @@ fn name_of(n: u32) -> String {
 	if n == 200 {
 		"q".to_string()
 	} else if n >= 100 {
-		format!("p{}", n - 100)
+		format!("p{:02}", n - 100)
 	} else {
 		NAMES[n as usize].to_string()
 	}
@@ -90,7 +90,7 @@ impl T {
 						.map(|i| format!("if \"{0}\" in super then super.{0} else null", NAMES[i]))
 						.collect();
 					parts.push(format!(
-						"p{p}:: [[{}], [{}]]",
+						"p{p:02}:: [[{}], [{}]]",
 						has.join(", "),
 						get.join(", ")
 					));
@@ -367,7 +367,7 @@ pub fn run(opts: &Opts) {
 				format!("{{ has: std.objectHas(o, \"{nm}\"), hasAll: std.objectHasAll(o, \"{nm}\"), inn: \"{nm}\" in o, get: if std.objectHasAll(o, \"{nm}\") then o.{nm} else null }}")
 			})
 			.collect();
-		let pr: Vec<String> = probes.iter().map(|p| format!("o.p{p}")).collect();
+		let pr: Vec<String> = probes.iter().map(|p| format!("o.p{p:02}")).collect();
 		let has_chain = src.contains("q+:: [ql]");
 		let code = format!(
 			"local o = {src}; {{ fields: std.objectFields(o), fieldsAll: std.objectFieldsAll(o), len: std.length(o), per: [{}], probes: [{}], chain: {}, vis: {{ [k]: o[k] for k in std.objectFields(o) }}, o: o, eqself: o == o }}",
